@@ -41,9 +41,9 @@ def _shard_worker(path):
                 rep.count("crash:" + ck)
             if not scn.clean:
                 rep.count("scenarios_not_clean")
-            if meta is not None and getattr(meta, "meta", None) and meta.meta.get("shadow") is not None:
+            if meta is not None and getattr(meta, "meta", None) and meta.meta.get("shadow_iface") is not None:
                 n_all = len(scn.inputs)
-                scn.inputs = [i for i in scn.inputs if i.iface != meta.meta["shadow"]]
+                scn.inputs = [i for i in scn.inputs if i.iface != meta.meta["shadow_iface"]]
                 rep.count("inputs_of_a_second_interface_in_between", n_all - len(scn.inputs))
             if meta is not None and getattr(meta, "meta", None) and meta.meta.get("clock_gaps"):
                 rep.count("clock_gaps_between_frames", meta.meta["clock_gaps"])
